@@ -208,7 +208,7 @@ def render(name, style, t, off_min, frac_digits):
     return None
 
 
-def instantiate(ex, groups, t, off_min, frac_digits):
+def instantiate(ex, groups, t, off_min, frac_digits, tzname=None):
     """render a new line from the example by replacing the located fields; returns (line, None) or (None, reason)"""
     line = ex["line"].encode("utf-8")
     parts = sorted(groups, key=lambda g: g[1])
@@ -218,7 +218,9 @@ def instantiate(ex, groups, t, off_min, frac_digits):
             return None, "overlapping groups"
         text = line[a:b].decode("utf-8", "replace")
         st = style_of(name, text)
-        if st == "other" or (name == "tz" and st == "tz-name"):
+        if name == "tz" and st == "tz-name" and tzname is not None:
+            new = tzname
+        elif st == "other" or (name == "tz" and st == "tz-name"):
             new = text
         else:
             new = render(name, st, t, off_min, frac_digits if name == "fractional" else None)
@@ -457,6 +459,51 @@ def run(tier, seed, build=True):
                             feats["fraction_digits"] = var[1]
                         res.violation(dict(feats, symptom="wrong-instant"), "entry %d: %r attributed %+.9f s away from the instant it denotes (-t %s)" % (e, ln[:90], d, tzarg), rep)
             res.distinct(("template", e))
+        # ---- stage C: zone abbreviations in notations that carry a named zone: unambiguous ones denote their offset,
+        # ambiguous ones (the project table's empty entries) are read in the --tz-offset zone
+        ambiguous = c14.ambiguous_names()[: (6 if tier == "quick" else 40)]
+        named = []
+        for e, ex, groups in templates:
+            tzg = [g for g in groups if g[0] == "tz"]
+            if tzg and style_of("tz", ex["line"].encode("utf-8")[tzg[0][1]:tzg[0][2]].decode("utf-8", "replace")) == "tz-name":
+                named.append((e, ex, groups))
+        if tier == "quick":
+            named = named[::3]
+
+        def stage_c(tp):
+            e, ex, groups = tp
+            outs = []
+            for tzarg, tzsec in (("-03:30", -12600), ("+05:45", 20700), ("-00:45", -2700)):
+                lines, exps = [], []
+                t = (2000, 2, 29, 23, 30, 1, ex["t"][6])
+                for nm in ambiguous:
+                    ln, _ = instantiate(ex, groups, t, 0, None if not [g for g in groups if g[0] == "fractional"] else [g for g in groups if g[0] == "fractional"][0][2] - [g for g in groups if g[0] == "fractional"][0][1], tzname=nm)
+                    if ln:
+                        lines.append(ln)
+                        exps.append((epoch_ns(t, tzsec), nm, "ambiguous"))
+                for nm, om in list(c14.ZONES.items())[:6]:
+                    if nm == "Z":
+                        continue
+                    ln, _ = instantiate(ex, groups, t, 0, None if not [g for g in groups if g[0] == "fractional"] else [g for g in groups if g[0] == "fractional"][0][2] - [g for g in groups if g[0] == "fractional"][0][1], tzname=nm)
+                    if ln:
+                        lines.append(ln)
+                        exps.append((epoch_ns(t, om * 60), nm, "unambiguous"))
+                # one abbreviation per file (a log carries one zone)
+                for ln, x in zip(lines, exps):
+                    r = run_file(work, "c%d_%s_%s.log" % (e, tzarg[1:3] + tzarg[4:], x[1]), [ln, ln], tzarg, gen.days_from_civil(2099, 12, 31) * 86400)
+                    outs.append((tzarg, ln, x, r))
+            return tp, outs
+        for (e, ex, groups), outs in common.pmap(stage_c, named):
+            for tzarg, ln, (exp, nm, kind), r in outs:
+                res.count()
+                got = parse_out(r.out)
+                if not got or got[0][1] != ln:
+                    continue        # the notation does not take this abbreviation here
+                if got[0][0] != exp:
+                    res.violation({"stage": "zone-name", "entry": e, "abbreviation_kind": kind, "symptom": "wrong-instant"},
+                                  "entry %d: %r with -t %s attributed %+.3f s away (%s abbreviation %s)" % (e, ln[:80], tzarg, (got[0][0] - exp) / 1e9, kind, nm),
+                                  {"engine": "E-CLI", "args": ["--color", "never", "-u", "-d", DTFMT, "-t=" + tzarg, "x.log"], "files": {"x.log": common.b64(ln + b"\n")}, "mtime": 4102358400})
+        res.coverage["named_zone_templates"] = len(named)
         res.sample({"stage": "documented-example", "line": examples[0]["line"], "expected_fields": examples[0]["t"], "zone": examples[0]["tz"]})
         res.sample({"stage": "sweep", "entry": templates[0][0], "template_from": templates[0][1]["line"], "fields_located": [g[0] for g in templates[0][2]]})
         res.coverage["templates"] = len(templates)
